@@ -96,10 +96,14 @@ func (ts *Timers) Add(ctx context.Context, id string, message interface{}, in ti
 	ts.timers[id] = te
 
 	stop := func() {
-		if err := ts.Rem(ctx, id); err != nil {
-			ts.err(fmt.Errorf("Timers rem error %v id=%s", err, id))
-
+		// Remove this timer, which is not necessarily the
+		// timer that has this id now: a Rem followed by an
+		// Add can have replaced it before we get the lock.
+		ts.Lock()
+		if current, have := ts.timers[id]; have && current == te {
+			delete(ts.timers, id)
 		}
+		ts.Unlock()
 	}
 
 	go func() {
